@@ -433,6 +433,7 @@ func runC02(p *core.Prog, r *core.Report) {
 	r.Guard("C02.R7", "selectors", "combiner classification", func() { checkSelectors(p, r) })
 	r.Guard("C02.R8", "Merge/key-set", "every key of the partial is merged", func() { checkMergeKeySet(p, r) })
 
+	r.Guard("C02.R4", "min-max-absent", "absent keys under MIN/MAX", func() { checkMinMaxAbsentKey(p, r) })
 	r.Guard("C02.R4", "in-place", "store values are never written in place", func() { checkNoInPlaceMutation(p, r, "C02.R4") })
 	r.Guard("C02.R3", "visits-all", "no silent truncation", func() {
 		checkNoSilentTruncation(p, r, "C02.R3", []loopSite{{pkgStore, "baseStore.Merge", nil}})
@@ -1424,4 +1425,143 @@ func numericDomain(fn *ssa.Function, depth int) string {
 		return "none"
 	}
 	return strings.Join(out, "+")
+}
+
+// checkMinMaxAbsentKey (C02.R4): under MIN/MAX, a key that is not yet in the full store takes the partial's value as
+// it is; the combiner is applied only to a value that was found.  Combining with a default (zero) turns a negative
+// maximum into 0 (or a positive minimum into 0) for keys first written in a later segment.
+func checkMinMaxAbsentKey(p *core.Prog, r *core.Report) {
+	fn := p.Func(pkgStore, "baseStore.Merge")
+	kvF := p.Field(pkgStore, "baseStore", "kv")
+	n := 0
+	core.Instrs(fn, func(in ssa.Instruction) {
+		rg, ok := in.(*ssa.Range)
+		if !ok {
+			return
+		}
+		f, base := core.LoadedField(rg.X)
+		if f != kvF || !derivesFromParam(base, fn.Params[1]) {
+			return
+		}
+		labels := p.CaseLabels(rg.Pos())
+		isMinMax := false
+		for _, l := range labels {
+			if strings.HasSuffix(l, "UPDATE_POLICY_MIN") || strings.HasSuffix(l, "UPDATE_POLICY_MAX") {
+				isMinMax = true
+			}
+		}
+		if !isMinMax {
+			return
+		}
+		n++
+		construct := "Merge/" + strings.Join(labels, "/") + "/absent-key"
+		var next *ssa.Next
+		for _, ref := range *rg.Referrers() {
+			if x, ok := ref.(*ssa.Next); ok {
+				next = x
+			}
+		}
+		var key, val ssa.Value
+		for _, ref := range *next.Referrers() {
+			if ex, ok := ref.(*ssa.Extract); ok {
+				switch ex.Index {
+				case 1:
+					key = ex
+				case 2:
+					val = ex
+				}
+			}
+		}
+		var loop *core.Loop
+		for _, l := range core.Loops(fn) {
+			if l.Header == next.Block() {
+				loop = l
+			}
+		}
+		if loop == nil || key == nil || val == nil {
+			core.Undecide("Merge: MIN/MAX loop shape not recognised")
+		}
+		// found / not-found edges of the lookup of this key in the full store
+		var foundE, absentE []core.Edge
+		for b := range loop.Body {
+			bi, ok := b.Instrs[len(b.Instrs)-1].(*ssa.If)
+			if !ok {
+				continue
+			}
+			c, neg := core.StripNot(bi.Cond)
+			ex, ok := c.(*ssa.Extract)
+			if !ok || ex.Index != 1 {
+				continue
+			}
+			lk, ok := ex.Tuple.(*ssa.Lookup)
+			if !ok || core.SkipConv(lk.Index) != key {
+				continue
+			}
+			if f, base := core.LoadedField(lk.X); f != kvF || !derivesFromParam(base, fn.Params[0]) {
+				continue
+			}
+			fi := 0
+			if neg {
+				fi = 1
+			}
+			foundE = append(foundE, core.Edge{From: b, Idx: fi})
+			absentE = append(absentE, core.Edge{From: b, Idx: 1 - fi})
+		}
+		// the combiner: a call of a local closure with two arguments inside the loop
+		var combine []ssa.Instruction
+		for b := range loop.Body {
+			for _, x := range b.Instrs {
+				if c, ok := x.(*ssa.Call); ok {
+					if _, isClosure := c.Call.Value.(*ssa.MakeClosure); isClosure && len(c.Call.Args) == 2 {
+						combine = append(combine, x)
+					}
+					if fnv, isFn := c.Call.Value.(*ssa.Function); isFn && fnv.Parent() == fn && len(c.Call.Args) == 2 {
+						combine = append(combine, x)
+					}
+				}
+			}
+		}
+		okCombine := len(foundE) > 0 && len(combine) > 0
+		q := core.PathQuery{Fn: fn, CutEdge: func(e core.Edge) bool { return containsEdge(foundE, e) }}
+		for _, c := range combine {
+			c := c
+			if _, reach := q.CanReach(next.Block().Succs[0].Instrs[0], func(x ssa.Instruction) bool { return x == c }); reach {
+				okCombine = false
+			}
+		}
+		// on the not-found edge the value written is the partial's own value
+		okRaw := false
+		for _, e := range absentE {
+			b := e.From.Succs[e.Idx]
+			for _, x := range b.Instrs {
+				if c := core.CalleeOf(x); c != nil && (c.Name() == "setNewKV" || c.Name() == "setKV") {
+					args := x.(ssa.CallInstruction).Common().Args
+					if len(args) >= 3 && core.SkipConv(args[1]) == key {
+						sl := core.OperandSlice(args[2])
+						bad := false
+						for v := range sl {
+							if lk, ok := v.(*ssa.Lookup); ok {
+								if f, _ := core.LoadedField(lk.X); f == kvF {
+									bad = true
+								}
+							}
+							for _, c := range combine {
+								if cv, ok := c.(ssa.Value); ok && cv == v {
+									bad = true
+								}
+							}
+						}
+						if !sl[val] || bad {
+							continue
+						}
+						okRaw = true
+					}
+				}
+			}
+		}
+		r.Check(okCombine && okRaw, "C02.R4", construct, "a key absent from the full store takes the partial's value unchanged; min/max is only computed against a value that was found (never against a default)", fmt.Sprintf("combiner only behind the found edge: %v; absent key written with the partial's raw value: %v", okCombine, okRaw), p.Pos(rg.Pos()))
+	})
+	if n < 8 {
+		core.Undecide("Merge: only %d MIN/MAX loops found (expected 8)", n)
+	}
 }
